@@ -277,6 +277,13 @@ fn run_script(script: &[&str]) {
             "insert" => {
                 cache.insert(geti(&kv, "k"), geti(&kv, "v"));
             }
+            "insertph" => {
+                // a disk-only (phantom) insert - what a rejecting admission filter or Location::OnDisk makes of an
+                // insert: it takes the in-flight entry and answers the waiters like any insert, displaces the resident
+                // record, and is not resident itself
+                use foyer_common::properties::Properties as _;
+                cache.insert_with_properties(geti(&kv, "k"), geti(&kv, "v"), CacheProperties::default().with_phantom(true));
+            }
             "remove" => {
                 cache.remove(&geti(&kv, "k"));
             }
